@@ -1025,6 +1025,114 @@ unstuff_chunk(void *drv, void *out, size_t n)
     return (ssize_t)k;
 }
 
+/* endpoints whose drivers keep their state elsewhere (a UART's putc/getc): the driver context is NULL */
+static unsigned char g_stream[64], g_sunk[64];
+static size_t g_spos, g_slen, g_kpos;
+
+static int
+g_src_octet(void *drv, void *out)
+{
+    if (drv != NULL || g_spos >= g_slen)
+        return drv != NULL ? -EINVAL : -ENODATA;
+    *(unsigned char *)out = g_stream[g_spos++];
+    return 1;
+}
+
+static int
+g_snk_octet(void *drv, unsigned char c)
+{
+    if (drv != NULL || g_kpos >= sizeof g_sunk)
+        return drv != NULL ? -EINVAL : -ENOMEM;
+    g_sunk[g_kpos++] = c;
+    return 1;
+}
+
+static ssize_t
+g_src_chunk(void *drv, void *out, size_t n)
+{
+    if (drv != NULL)
+        return -EINVAL;
+    if (g_spos >= g_slen)
+        return -ENODATA;
+    if (n > 3)
+        n = 3;
+    if (n > g_slen - g_spos)
+        n = g_slen - g_spos;
+    memcpy(out, g_stream + g_spos, n);
+    g_spos += n;
+    return (ssize_t)n;
+}
+
+static ssize_t
+g_snk_chunk(void *drv, const void *p, size_t n)
+{
+    if (drv != NULL)
+        return -EINVAL;
+    if (n > 2)
+        n = 2;
+    if (g_kpos + n > sizeof g_sunk)
+        return -ENOMEM;
+    memcpy(g_sunk + g_kpos, p, n);
+    g_kpos += n;
+    return (ssize_t)n;
+}
+
+static void
+contextless(vh_rng *r)
+{
+    g_slen = 8 + (size_t)vh_below(r, 40);
+    for (size_t i = 0; i < g_slen; i++)
+        g_stream[i] = (unsigned char)vh_rand(r);
+    const size_t N = 1 + (size_t)vh_below(r, g_slen);
+    const int srcchunk = (int)vh_below(r, 2), snkchunk = (int)vh_below(r, 2), fun = (int)vh_below(r, 6);
+    static const char *fn[] = { "source_get_chunk", "source_get_chunk_atmost", "sink_put_chunk", "sink_put_chunk_atmost", "sts_n_aux", "sts_n_cbc" };
+    Source s;
+    Sink k;
+    if ((g_kpos + N) & 1) {
+        const Source so = OCTET_SOURCE_INIT(g_src_octet, NULL), sc = CHUNK_SOURCE_INIT(g_src_chunk, NULL);
+        const Sink ko = OCTET_SINK_INIT(g_snk_octet, NULL), kc = CHUNK_SINK_INIT(g_snk_chunk, NULL);
+        s = srcchunk ? sc : so;
+        k = snkchunk ? kc : ko;
+    } else {
+        if (srcchunk)
+            chunk_source_init(&s, g_src_chunk, NULL);
+        else
+            octet_source_init(&s, g_src_octet, NULL);
+        if (snkchunk)
+            chunk_sink_init(&k, g_snk_chunk, NULL);
+        else
+            octet_sink_init(&k, g_snk_octet, NULL);
+    }
+    g_spos = g_kpos = 0;
+    unsigned char *mem = vh_arena(N), auxm[4];
+    ByteBuffer aux;
+    byte_buffer_space(&aux, auxm, sizeof auxm);
+    ssize_t rc;
+    int ok;
+    switch (fun) {
+    case 0: rc = source_get_chunk(&s, mem, N); ok = rc == (ssize_t)N && memcmp(mem, g_stream, N) == 0; break;
+    case 1: rc = source_get_chunk_atmost(&s, mem, N); ok = rc >= 1 && rc <= (ssize_t)N && memcmp(mem, g_stream, (size_t)rc) == 0; break;
+    case 2:
+        memcpy(mem, g_stream, N);
+        rc = sink_put_chunk(&k, mem, N);
+        ok = rc == (ssize_t)N && g_kpos == N && memcmp(g_sunk, g_stream, N) == 0;
+        break;
+    case 3:
+        memcpy(mem, g_stream, N);
+        rc = sink_put_chunk_atmost(&k, mem, N);
+        ok = rc >= 1 && rc <= (ssize_t)N && g_kpos == (size_t)rc && memcmp(g_sunk, g_stream, (size_t)rc) == 0;
+        break;
+    case 4: rc = sts_n_aux(&s, &k, &aux, N); ok = rc == (ssize_t)N && g_kpos == N && memcmp(g_sunk, g_stream, N) == 0; break;
+    default: rc = sts_n_cbc(&s, &k, N); ok = rc == (ssize_t)N && g_kpos == N && memcmp(g_sunk, g_stream, N) == 0; break;
+    }
+    if (!ok)
+        vh_fail("contextless-endpoint", "workload=contextless", "%s on %s source / %s sink registered with a NULL driver context, N=%zu of %zu: "
+                "rc=%zd, source at %zu, sink holds %zu", fn[fun], srcchunk ? "chunk" : "octet", snkchunk ? "chunk" : "octet", N, g_slen, rc,
+                g_spos, g_kpos);
+    VH_COUNT("endpoint registered with a NULL driver context");
+    (*vh_ncases)++;
+}
+
 static void
 u_layered(uint64_t idx, void *arg)
 {
@@ -1033,6 +1141,8 @@ u_layered(uint64_t idx, void *arg)
     vh_unit_rng(&r, "layered", idx);
     for (int rep = 0; rep < 200; rep++) {
         vh_arena_reset();
+        if ((rep % 4) == 1)
+            contextless(&r);
         unsigned char stream[120], stuffed[260];
         size_t L = 1 + (size_t)vh_below(&r, 100), sn = 0;
         for (size_t i = 0; i < L; i++) {
@@ -1326,6 +1436,7 @@ harness_run(void)
         vh_unit("layered", i, u_layered, NULL);
     vh_require("layered sink: a driver that uses the sink API on a lower sink");
     vh_require("layered source: a driver that uses the source API on a lower source");
+    vh_require("endpoint registered with a NULL driver context");
     vh_unit("huge", 0, u_huge, NULL);
     static const char *req[] = { "exact get: completed", "exact get: hard error path", "exact put: completed",
                                  "exact put: hard error path", "at-most: count returned", "at-most: error returned",
